@@ -392,6 +392,9 @@ func (n *crashNode) boot() string {
 	n.dd, n.dkgStore = dd, st
 	bp, err := dd.LoadBeaconFromStore(n.ctx, n.beaconID, dd.VerifKeyStore(n.beaconID))
 	n.bp = bp
+	if err != nil && bp != nil {
+		return "load-err:start-beacon-failed"
+	}
 	if err != nil {
 		return "load-err:" + classifyLoadErr(err)
 	}
@@ -801,6 +804,10 @@ func (n *crashNode) recoverImage(c cut, withChain bool) string {
 			}()
 			bp, err := dd.LoadBeaconFromStore(n.ctx, n.beaconID, dd.VerifKeyStore(n.beaconID))
 			panicked = false
+			if err != nil && bp != nil {
+				// Load succeeded, StartBeacon (createDBStore / NewHandler) failed
+				return "err:start-beacon-failed"
+			}
 			if err != nil {
 				return "err:" + classifyLoadErr(err)
 			}
